@@ -10,7 +10,7 @@ Theorem C14_first_bad_line_number :
          Forall line_ok pre ->
          classify_line bad = LBad m ->
          read_lines (pre ++ bad :: post) n cur acc = Err (EIni (n + N.of_nat (Datatypes.length pre) + 1) m).
-Proof. exact C14_first_bad_line. Qed.
+Proof. exact @C14_first_bad_line. Qed.
 Print Assumptions C14_first_bad_line_number.
 
 Theorem C14_first_bad_line_text :
@@ -18,7 +18,7 @@ Theorem C14_first_bad_line_text :
          ini_lines text = pre ++ bad :: post ->
          Forall line_ok pre ->
          classify_line bad = LBad m -> read_ini text = Err (EIni (N.of_nat (Datatypes.length pre) + 1) m).
-Proof. exact C14_first_bad_line_read_ini. Qed.
+Proof. exact @C14_first_bad_line_read_ini. Qed.
 Print Assumptions C14_first_bad_line_text.
 
 Theorem C14_entries_carry_their_line :
@@ -32,7 +32,7 @@ Theorem C14_entries_carry_their_line :
              {|
                ie_name := k; ie_value := v; ie_quoted := q; ie_line := n + N.of_nat (Datatypes.length pre) + 1
              |} es.
-Proof. exact C14_entry_line_numbers. Qed.
+Proof. exact @C14_entry_line_numbers. Qed.
 Print Assumptions C14_entries_carry_their_line.
 
 Theorem C14_entries_only_from_lines :
@@ -46,7 +46,7 @@ Theorem C14_entries_only_from_lines :
             nth_error ls j = Some l /\
             classify_line l = LEntry (ie_name e) (ie_value e) (ie_quoted e) /\
             ie_line e = n + N.of_nat j + 1 /\ cur_after (firstn j ls) cur = s).
-Proof. exact C14_entry_line_numbers_conv. Qed.
+Proof. exact @C14_entry_line_numbers_conv. Qed.
 Print Assumptions C14_entries_only_from_lines.
 
 (* blank and comment lines do not change what the other lines mean; a reported line number shifts by exactly one *)
@@ -67,7 +67,7 @@ Theorem C14_noise_lines :
              end
          | _ => False
          end.
-Proof. exact C14_noise_invariance. Qed.
+Proof. exact @C14_noise_invariance. Qed.
 Print Assumptions C14_noise_lines.
 
 Theorem C14_noise_lines_multi :
@@ -88,18 +88,18 @@ Theorem C14_noise_lines_multi :
              end
          | _ => False
          end.
-Proof. exact C14_noise_invariance_multi. Qed.
+Proof. exact @C14_noise_invariance_multi. Qed.
 Print Assumptions C14_noise_lines_multi.
 
 Theorem C14_crlf_line_ends :
   forall text : list N, ~ In 13 text -> read_ini (crlf text) = read_ini text.
-Proof. exact C14_crlf_read_ini. Qed.
+Proof. exact @C14_crlf_read_ini. Qed.
 Print Assumptions C14_crlf_line_ends.
 
 (* arbitrarily long lines are reassembled from any chunking *)
 Theorem C14_long_lines :
   forall chunks : list str, read_full_line chunks = concat chunks.
-Proof. exact read_full_line_concat. Qed.
+Proof. exact @read_full_line_concat. Qed.
 Print Assumptions C14_long_lines.
 
 Theorem C14_unknown_section_policy :
@@ -111,7 +111,7 @@ Theorem C14_unknown_section_policy :
          Ok (r, q, Some (EFlags ErrUnknownGroup (s2l "could not find option group `" ++ name ++ s2l "'"))) /\
          apply_sections orc delim ht true as_defaults root ((name, es) :: rest) r q dfl =
          apply_sections orc delim ht true as_defaults root rest r q dfl.
-Proof. exact C14_unknown_section. Qed.
+Proof. exact @C14_unknown_section. Qed.
 Print Assumptions C14_unknown_section_policy.
 
 Theorem C14_unknown_option_policy :
@@ -121,6 +121,66 @@ Theorem C14_unknown_option_policy :
          apply_entry orc delim ht false as_defaults groups e r q dfl =
          Ok (r, q, dfl, Some (EIni (ie_line e) (s2l "unknown option: " ++ ie_name e))) /\
          apply_entry orc delim ht true as_defaults groups e r q dfl = Ok (r, q, dfl, None).
-Proof. exact C14_unknown_option. Qed.
+Proof. exact @C14_unknown_option. Qed.
 Print Assumptions C14_unknown_option_policy.
+
+(* ---- added by bin/mkprops (batch 2) ---- *)
+From GoFlags Require Import Base.Str Base.Utf8 Golib.Strings Golib.Strconv Model.Types Model.Tag Model.Scan Model.Lookup Model.Convert Model.State Model.Closest Model.Help Model.Parse Model.Ini Model.Complete.
+From GoFlags Require Import Proofs.IniPanicSpec.
+
+(* for any byte sequence the reader returns a file or an error carrying a line number between 1 and the number of lines *)
+Theorem C14_reader_never_panics :
+  forall text : str,
+         (exists f : ini_file, read_ini text = Ok f) \/
+         (exists (k : N) (m : str),
+            read_ini text = Err (EIni k m) /\ 1 <= k <= N.of_nat (Datatypes.length (ini_lines text))).
+Proof. exact @C14_read_never_panics. Qed.
+Print Assumptions C14_reader_never_panics.
+
+Theorem C14_apply_only_benign_panics :
+  forall (orc : oracles) (delim : str) (ht : rt -> str) (ignore as_defaults : bool) 
+           (root : command) (f : ini_file) (r : rt) (t : str),
+         ini_apply orc delim ht ignore as_defaults root f r = Panic t -> ParseFrame.benign_panic t.
+Proof. exact @C14_apply_panics_benign. Qed.
+Print Assumptions C14_apply_only_benign_panics.
+
+(* every error of applying a file carries the line of one of its entries, or is ErrUnknownGroup for one of its sections *)
+Theorem C14_errors_are_located :
+  forall (orc : oracles) (delim : str) (ht : rt -> str) (ignore as_defaults : bool) 
+           (root : command) (f : ini_file) (r r' : rt) (e : err),
+         ini_apply orc delim ht ignore as_defaults root f r = Ok (r', Some e) ->
+         (exists (name : str) (es : list ini_entry) (en : ini_entry) (msg : str),
+            In (name, es) f /\ In en es /\ e = EIni (ie_line en) msg) \/
+         ignore = false /\
+         (exists (name : str) (es : list ini_entry),
+            In (name, es) f /\
+            matching_groups root name = [] /\
+            e = EFlags ErrUnknownGroup (s2l "could not find option group `" ++ name ++ s2l "'")).
+Proof. exact @C14_apply_errors_located. Qed.
+Print Assumptions C14_errors_are_located.
+
+(* under IgnoreUnknown, unknown sections and options are skipped and everything else is applied *)
+Theorem C14_ignore_unknown_skips_only_unknown :
+  forall (orc : oracles) (delim : str) (ht : rt -> str) (as_defaults : bool) 
+           (root : command) (f : ini_file) (r : rt) (q : quotes) (dfl : list nat),
+         apply_sections orc delim ht true as_defaults root f r q dfl =
+         apply_sections orc delim ht true as_defaults root (prune_file delim root f) r q dfl.
+Proof. exact @C14_ignore_unknown_applies_rest. Qed.
+Print Assumptions C14_ignore_unknown_skips_only_unknown.
+
+Theorem C14_ignore_unknown_error_origin :
+  forall (orc : oracles) (delim : str) (ht : rt -> str) (as_defaults : bool) 
+           (root : command) (f : ini_file) (r r' : rt) (e : err),
+         ini_apply orc delim ht true as_defaults root f r = Ok (r', Some e) ->
+         exists (name : str) (es : list ini_entry) (en : ini_entry) (oc : octx),
+           In (name, es) f /\
+           In en es /\
+           matching_groups root name <> [] /\
+           resolve_entry delim (matching_groups root name) (ie_name en) = Some oc /\
+           (is_map (o_ty (oc_opt oc)) = true /\ e = EIni (ie_line en) err_syntax \/
+            (exists (v : option str) (r0 r1 : rt) (er : err),
+               set_op orc delim ht as_defaults oc v r0 = Ok (r1, Some er) /\
+               e = EIni (ie_line en) (err_text er))).
+Proof. exact @C14_ignore_unknown_errors. Qed.
+Print Assumptions C14_ignore_unknown_error_origin.
 
